@@ -172,7 +172,7 @@ def random_history(rng, length, elem='tr', weights=None, max_dim=3, arith=True, 
             elif cat == 'shape':
                 which = rng.randrange(6)
                 if which == 0 and r * c > 0:
-                    divs = [k for k in range(1, r * c + 1) if (r * c) % k == 0]
+                    divs = [k for k in range(1, min(r * c, 4096) + 1) if (r * c) % k == 0]
                     k = rng.choice(divs)
                     o = op('reshape', s, k, r * c // k)
                 elif which == 1:
@@ -290,6 +290,13 @@ def random_history(rng, length, elem='tr', weights=None, max_dim=3, arith=True, 
                     o = op(nm, s)
             else:
                 o = op('drop', s)
+        # element-less matrices with an astronomically large extent (reshape of an empty matrix to 2^63 x 0) are kept -
+        # their coherence is part of C01 - but operations whose running time is proportional to an extent
+        # (`for i in 0..major` in overwrite and the strided swaps, the products' result size) are not run on them:
+        # they would run for years in the crate as well, which no property speaks about
+        if o[1] in ('overwrite', 'swap_rows', 'swap_cols', 'multiply', 'op_mul', 'mul_like') and \
+                any(x is not None and max(x[0], x[1]) > 2**20 for x in sh.s):
+            o = op('shape', s)
         ops.append(o)
         sh.apply(o)
     return ops
@@ -301,7 +308,7 @@ def gen_C01(rng, tier, changed):
     n = 220 if tier == 'quick' else 2500
     if changed:
         n *= 2
-    L = 35 if tier == 'quick' else 120
+    L = 35 if tier == 'quick' else 80
     cases = []
     for i in range(n):
         elem = rng.choices(['tr', 'unit', 'zd', 'w24'], [8, 1, 1, 1])[0]
@@ -827,7 +834,13 @@ def run_suite(pid, suite, rng, tier, profiles, workdir, changed):
             else:
                 findings = C.compare_case(c, hl if hl else [], ml[:-1] if ml else ml)
                 if suite.get('oracle'):
-                    findings += suite['oracle'](c, hl_ops)
+                    try:
+                        findings += suite['oracle'](c, hl_ops)
+                    except Exception as e:      # output the oracle cannot read (a crash line, a truncated transcript) is a finding
+                        bad = next((i for i, l in enumerate(hl_ops) if ' ;; ' not in l), max(0, len(hl_ops) - 1))
+                        findings.append(dict(kind='oracle', op_index=bad, op=(c.ops[bad][1] if bad < len(c.ops) else '?'),
+                                             observed=(hl_ops[bad] if bad < len(hl_ops) else '')[:300],
+                                             detail=f'the implementation transcript cannot be interpreted by the direct oracle ({e!r})'))
             if any(' ;; ' in l and not l.startswith('INVALID') for l in hl):
                 nontrivial_keys.add(case_key(c))
             for f in findings[:3]:
@@ -1474,6 +1487,13 @@ def gen_C20(rng, tier, changed):
                    op('switch_order', 0), op('display', 0), op('debug', 0), op('transpose', 0), op('display', 0), op('debug', 0)]
             cases.append(Case(f'C20-{k}', ops, 'tr', meta=dict(rows=rows)))
             k += 1
+    # element counts around the powers of ten: the width of Debug's index labels changes there
+    big = [(2, 5), (11, 1), (9, 11), (10, 10), (3, 35), (2, 51), (8, 125), (7, 143)]
+    for (r, c) in (big if tier != 'quick' else [(2, 5), (10, 10), (3, 35), (7, 143)]):
+        vals = [rng.choice([7, 42, 1001, 100000, 1003, 5]) for _ in range(r * c)]
+        ops = [op('from_row', 0, rows=[vals]), op('reshape', 0, r, c), op('display', 0), op('debug', 0),
+               op('switch_order', 0), op('display', 0), op('debug', 0)]
+        cases.append(Case(f'C20-big{r}x{c}', ops, 'tr', meta=dict(rows=[vals[i * c:(i + 1) * c] for i in range(r)])))
     return cases
 
 
@@ -1748,7 +1768,7 @@ SUITES.update({
     'C19': dict(gen=gen_C19, oracle=oracle_C19, files=['src/convert.rs', 'src/construct.rs', 'src/macros.rs'],
                 rule='row counts 0..4 x row lengths 0..4 with one odd row at every position (shorter, longer, empty), length-coincidence cases, all conversions, constructors and macro arms'),
     'C20': dict(gen=gen_C20, oracle=oracle_C20, files=['src/fmt.rs'], feature_profiles=['nodefault', 'full'],
-                rule='shapes <= 3x3 plus degenerate and 1x5/5x1, both orders, renderings from a pool (empty, ASCII, multi-byte, multi-line, CRLF, trailing newline)'),
+                rule='shapes <= 3x3 plus degenerate and 1x5/5x1 and element counts around 10, 100 and 1000, both orders, renderings from a pool (empty, ASCII, multi-byte, multi-line, CRLF, trailing newline)'),
 })
 
 
@@ -1876,7 +1896,7 @@ def oracle_C03(case, hlines):
 
 
 SUITES['C03'] = dict(thorough_rounds=2, gen=gen_C03, oracle=oracle_C03, files=['src/iter/iter_mut.rs', 'src/iter.rs'],
-                     rule='shapes <= 4x4 and 1x7, 7x1, 2x9, both orders, both axes, element types of size 40/24/0/0 (with and without drop glue); '
+                     rule='shapes <= 4x4 and 1x7, 7x1, 2x9, both orders, both axes, element types of size 40/24/1/0/0 (with and without drop glue); '
                           'every command sequence up to length 4-5 on shapes <= 2x2 and random sequences up to length 60 with all inner iterators alive; '
                           'pointer events from the verif-hooks recorder range-checked inside the harness')
 
